@@ -388,7 +388,10 @@ func (d *defaultRouter) Lookup(method, path string) (*MatchedRoute, bool) {
 					// a workaround to handle fragment/composing parameters until they are supported in denco router
 					// check if this parameter is a fragment within a path segment
 					const enclosureSize = 2
-					if xpos := strings.Index(entry.PathPattern, fmt.Sprintf("{%s}", p.Name)) + len(p.Name) + enclosureSize; xpos < len(entry.PathPattern) && entry.PathPattern[xpos] != '/' {
+					// (a name the router made up from a ':' or '*' of a literal is no placeholder of the pattern)
+					if ppos := strings.Index(entry.PathPattern, fmt.Sprintf("{%s}", p.Name)); ppos < 0 {
+						params = append(params, RouteParam{Name: p.Name, Value: v})
+					} else if xpos := ppos + len(p.Name) + enclosureSize; xpos < len(entry.PathPattern) && entry.PathPattern[xpos] != '/' {
 						// extract fragment parameters
 						ep := strings.Split(entry.PathPattern[xpos:], "/")[0]
 						pnames, pvalues := decodeCompositParams(p.Name, v, ep, nil, nil)
